@@ -13,8 +13,8 @@
 #                  FileFaults.load_outcome evaluated on the same bytes;
 #                  histories with damaged files against the cache state
 #                  machines (as in C07);
-#              (3) chunking: strace of the library's own save paths — the
-#                  interleaving theorem needs <= 2 write syscalls per file
+#              (3) atomicity: strace of the library's own save paths — every basis
+#                  file must appear by rename of a completely written temp file
 #   search     damage sweeps and damage histories judged by the property on
 #              the implementation (result equals the no-disk-cache result, or
 #              an exception while the damaged file is still there; fresh
@@ -208,11 +208,11 @@ def sweep_case(mod, good, rows):
     m = METHOD_COQ[mod]
     t = lambda: '(fun _ => true)'        # noqa
     code = ('(fun o => match o with Fresh => 0 | Exception => 1 | Different => 2 end)')
-    items = ['(Nat.eqb (%s (load_outcome %s %s %s (fun _ => false) (firstn %d G))) %d)' % (code, m, t(), t(), k, c)
+    items = ['(Nat.eqb (%s (load_outcome %s %s %s (firstn %d G))) %d)' % (code, m, t(), t(), k, c)
              for k, c in zip(ks, obs)]
     items += ['(Bool.eqb (resaved %s (firstn %d G)) %s)' % (m, k, H.cbool(r)) for k, r in zip(ks, rsv) if k < n]
     for d, c, r in others:
-        items.append('(Nat.eqb (%s (load_outcome %s %s %s (fun _ => false) %s)) %d)' % (code, m, t(), t(), nbytes(d), c))
+        items.append('(Nat.eqb (%s (load_outcome %s %s %s %s)) %d)' % (code, m, t(), t(), nbytes(d), c))
         items.append('(Bool.eqb (resaved %s %s) %s)' % (m, nbytes(d), H.cbool(r)))
     text = (HDR + 'From PA Require Import base.Npy base.QClose model.FileFaults.\n'
             'Definition G : bytes := %s.\nDefinition res : list bool := %s.\n'
@@ -240,9 +240,11 @@ abel.rbasex.rbasex_transform(Q, basis_dir=d)
 
 
 def strace_guard(root):
-    """In-place write syscalls per saved basis file.  A file that is written
-    under another name and then renamed onto the .npy name counts as saved
-    atomically (no in-place write)."""
+    """How does each basis file of the library's own save paths come into being?
+    Returns {basis file: dict(inplace=[sizes of write syscalls on the .npy path itself],
+    renamed_from=temp name or None, temp_bytes=bytes written to that temp file, size=final size)}.
+    The atomic-save theorem needs: no in-place write, the file appears by rename
+    of a temporary file into which all of its bytes were written before."""
     d = os.path.join(root, 'strace')
     shutil.rmtree(d, ignore_errors=True)
     os.makedirs(d)
@@ -255,20 +257,30 @@ def strace_guard(root):
                        timeout=600)
     if p.returncode != 0 or not os.path.exists(log):
         return None, 'strace run failed: ' + p.stderr.decode()[-300:]
-    counts = {}
+    written = {}            # path -> list of write sizes (in order)
+    info = {}
     for line in open(log, errors='replace'):
-        # -y annotates descriptors with their path (also after dup): write(5</dir/x.npy>, ..., N) = N
-        m = re.match(r'\d+\s+write\(\d+<([^>]*\.npy)>, .*\)\s*=\s*(\d+)', line)
-        if m:
-            counts.setdefault(os.path.basename(m.group(1)), []).append(int(m.group(2)))
+        # -y annotates descriptors with their path (also after dup): write(5</dir/x>, ..., N) = N
+        m = re.match(r'\d+\s+write\(\d+<([^>]*)>, .*\)\s*=\s*(\d+)', line)
+        if m and m.group(1).startswith(d):
+            written.setdefault(os.path.basename(m.group(1)), []).append(int(m.group(2)))
             continue
-        m = re.match(r'\d+\s+rename(?:at2?)?\(.*"([^"]*\.npy)"[^"]*\)\s*=\s*0', line)
-        if m:
-            counts.setdefault(os.path.basename(m.group(1)), [])
+        m = re.match(r'\d+\s+rename(?:at2?)?\((?:AT_FDCWD[^,]*, )?"([^"]*)", (?:AT_FDCWD[^,]*, )?"([^"]*\.npy)"[^"]*\)\s*=\s*0', line)
+        if m and m.group(2).startswith(d):
+            src, dst = os.path.basename(m.group(1)), os.path.basename(m.group(2))
+            info[dst] = dict(renamed_from=src, temp_bytes=sum(written.get(src, [])), temp_writes=len(written.get(src, [])))
     for f in os.listdir(d):
         if f.endswith('.npy'):
-            counts.setdefault(f, [])
-    return counts, None
+            e = info.setdefault(f, dict(renamed_from=None, temp_bytes=0, temp_writes=0))
+            e['inplace'] = written.get(f, [])
+            e['size'] = os.path.getsize(os.path.join(d, f))
+    return info, None
+
+
+def not_atomic(info):
+    """basis files that did not appear by rename of a completely written temp file"""
+    return sorted(f for f, e in info.items()
+                  if e.get('inplace') or e['renamed_from'] is None or e['temp_bytes'] != e.get('size'))
 
 
 def zero_gap_probe(env, worker, rng):
@@ -292,20 +304,42 @@ sys.path.insert(0, '/verif/tools')
 import numpy as np
 from props import cache_harness as H
 from props import C08
-# 1. the library's own saves: write syscalls issued on the .npy file itself (strace)
+# 1. the library's own saves: does every basis file appear by rename of a fully written temp file? (strace)
 root = '/var/tmp/pyabel-verif-replay-%d' % os.getpid()
 os.makedirs(root)
-counts, err = C08.strace_guard(root)
-print('in-place write syscalls per saved file:', counts or err)
-many = [f for f, c in (counts or {}).items() if len(c) > 2]
+info, err = C08.strace_guard(root)
+print('how the saved basis files came into being:', info or err)
+bad = C08.not_atomic(info or {})
 # 2. the content the schedule A:trunc,hdr,bulk  B:trunc,hdr  A:tail  leaves behind (header, zero gap, tail)
 env = H.Env(os.path.join(root, 'main')); w = H.LocalFresh(os.path.join(root, 'fresh'))
 changed = C08.zero_gap_probe(env, w, np.random.default_rng(0))
 env.close(); w.close(); shutil.rmtree(root, ignore_errors=True)
-print('zero-gap file is loaded and changes the result:', changed)
-bad = bool(many) and changed
-print('property C08 (concurrent writers)', 'FAILS' if bad else 'holds')
-sys.exit(1 if bad else 0)
+print('a zero-gap file (possible when saving in place) is loaded and changes the result:', changed)
+fails = bool(bad) and changed
+print('property C08 (concurrent writers)', 'FAILS for %r' % bad if fails else 'holds')
+sys.exit(1 if fails else 0)
+'''
+
+
+BASEX_EXTEND_SNIPPET = '''import sys, os, shutil, io, contextlib, warnings
+warnings.simplefilter('ignore')
+import numpy as np
+import abel.basex as bx
+d = '/var/tmp/pyabel-verif-replay-%d' % os.getpid()
+shutil.rmtree(d, ignore_errors=True); os.makedirs(d)
+IM = np.random.default_rng(0).random((2, 8)) + 0.1
+bx.cache_cleanup(); fresh = bx.basex_transform(IM, basis_dir=None, verbose=False); bx.cache_cleanup()
+# a valid .npy that is not what its name promises ((5, 5) expected), smaller than the request
+np.save(d + '/basex_basis_5_1.0.npy', np.zeros((2, 3, 3)))
+with contextlib.redirect_stdout(io.StringIO()):
+    try:
+        r = bx.basex_transform(IM, basis_dir=d, verbose=False)
+    except Exception as e:
+        print('raises', type(e).__name__, '(allowed)'); shutil.rmtree(d); sys.exit(0)
+diff = float(abs(r - fresh).max())
+shutil.rmtree(d)
+print('max abs difference to the no-disk-cache result:', diff)
+sys.exit(1 if diff > 1e-9 else 0)
 '''
 
 
@@ -313,44 +347,19 @@ sys.exit(1 if bad else 0)
 # findings
 # --------------------------------------------------------------------------
 def classify(mod, ops, recs, out, ref):
+    """All defects of this property found while the check was built are fixed in
+    /repo; whatever fails now gets a key of its own."""
     kinds = [o[3] for o in ops if o[0] == 'seed' and o[3] != 'good']
     if not kinds:
         return None                       # no damaged file involved: C07's business
-    raised = [r for r in recs if r['op'][0] == 'call' and r['out'][0] == 'exc']
-    shape = 'shape' in kinds
-    if mod == 'linbasex' and shape and not raised:
-        return 'C08:linbasex:wrong-shape-file-used-unchecked'
-    if shape and mod in ('basex', 'daun', 'rbasex', 'dasch'):
-        if out[0] == 'ok':
-            return 'C08:%s:wrong-shape-file-cropped-and-used' % mod
-        return 'C08:%s:wrong-shape-basis-kept-in-memory' % mod
-    if raised and mod == 'dasch':
-        return 'C08:dasch:method-name-assigned-before-load'
-    if raised and mod == 'linbasex':
-        return 'C08:linbasex:keys-assigned-before-load'
-    if raised and mod == 'rbasex':
-        return 'C08:rbasex:bs-prm-assigned-before-load'
     return 'C08:%s:unclassified:%s' % (mod, '/'.join(o[0] + (':' + o[3] if o[0] == 'seed' else '') for o in ops))
 
 
 WHAT = {
-    'C08:dasch:method-name-assigned-before-load':
-        'dasch: _method is assigned before the unguarded np.load; after a damaged file made a call raise and was removed, '
-        'the next call silently uses the operator of the previously used method',
-    'C08:linbasex:keys-assigned-before-load':
-        'linbasex: _los/_pas/_radial_step/_clip are assigned before the unguarded np.load; after a damaged file made a call '
-        'raise and was removed, the old basis answers for the new parameters',
-    'C08:rbasex:bs-prm-assigned-before-load':
-        'rbasex: _bs_prm is assigned before _load_bs and EOFError (empty file) is not caught; after the call raised and the '
-        'file was removed the old basis is used for the new parameters',
-    'C08:linbasex:wrong-shape-file-used-unchecked': 'linbasex: a valid .npy of another shape under the basis name is used without a shape check',
-    'C08:basex:wrong-shape-basis-kept-in-memory': 'basex: a wrong-shape loaded basis is kept in the memory cache; calls keep raising after the file is removed',
-    'C08:daun:wrong-shape-basis-kept-in-memory': 'daun: a wrong-shape loaded basis is kept in the memory cache; calls keep raising after the file is removed',
-    'C08:rbasex:wrong-shape-basis-kept-in-memory': 'rbasex: a wrong-shape loaded basis is kept in the memory cache; calls keep raising after the file is removed',
-    'C08:basex:wrong-shape-file-cropped-and-used': 'basex: a valid .npy smaller than its name promises, but larger than the request, is cropped and used',
-    'C08:daun:wrong-shape-file-cropped-and-used': 'daun: a valid .npy smaller than its name promises, but larger than the request, is cropped and used',
-    'C08:dasch:wrong-shape-file-cropped-and-used': 'dasch: a valid .npy smaller than its name promises, but larger than the request, is cropped and used',
-    'C08:rbasex:wrong-shape-file-cropped-and-used': 'rbasex: a valid .npy smaller than its name promises, but larger than the request, is cropped and used',
+    'C08:basex:wrong-shape-file-extended':
+        'basex: to extend it, get_bs_cached loads the largest existing basis file of the same sigma without a shape check; '
+        'a valid .npy that is not what its name promises and fits into the requested basis is used as its lower-left block '
+        'silently (and the wrong basis is saved)',
 }
 
 
@@ -516,20 +525,29 @@ def run(ctx):
                        correspondence_disagreements=n_tot - n_ok, garbage_outside_header_grammar=unsupported,
                        correspondence_broken=[list(b) for b in broken])
         # (3) chunking
-        counts, err = strace_guard(root)
-        ctx.cov['write_syscalls_per_saved_file'] = counts if counts is not None else err
-        too_many = [f for f, c in (counts or {}).items() if len(c) > 2]
-        if counts is None or len(counts) < 5:
-            broken.append(('strace', err or 'fewer than 5 saved basis files seen: %r' % (counts,)))
-        if too_many:
+        info, err = strace_guard(root)
+        ctx.cov['how_saved_basis_files_appear'] = info if info is not None else err
+        bad = not_atomic(info or {})
+        if info is None or len(info) < 5:
+            broken.append(('strace', err or 'fewer than 5 saved basis files seen: %r' % (info,)))
+        if bad:
             if zero_gap_probe(env, worker, rng):
-                hits.append(Hit('two_chunk_interleaving_safe', 'C08:save-in-more-than-two-writes',
-                                'a basis file is saved with %d write syscalls (%r): the interleaving of two writers and a reader '
-                                'of the refuted three-chunk theorem exists; the zero-gap file it produces is loaded and changes the result'
-                                % (max(len(counts[f]) for f in too_many), too_many),
-                                CHUNK_SNIPPET, dict(counts=counts)))
+                hits.append(Hit('atomic_save_safe', 'C08:basis-file-not-saved-atomically',
+                                'basis files %r do not appear by rename of a completely written temporary file (in-place '
+                                'writes: %r): the atomic-save theorem does not cover them; numpy.save needs three write '
+                                'syscalls, so two concurrent savers and a reader admit the schedule of the refuted three-chunk '
+                                'theorem, and the zero-gap file it leaves behind is loaded and changes the result'
+                                % (bad, {f: info[f].get('inplace') for f in bad}),
+                                CHUNK_SNIPPET, dict(info=info)))
             else:
-                broken.append(('strace', 'more than two writes per file: %r' % too_many))
+                broken.append(('strace', 'basis files not saved atomically: %r' % bad))
+        # the extension path of basex (remaining finding): a wrong-shape smaller file of the same sigma
+        rc, out = vlib.run_snippet(BASEX_EXTEND_SNIPPET)
+        n_eval += 1
+        if rc != 0:
+            hits.append(Hit('fault_outcome', 'C08:basex:wrong-shape-file-extended',
+                            WHAT['C08:basex:wrong-shape-file-extended'] + ': ' + out.strip().splitlines()[-1][:120],
+                            BASEX_EXTEND_SNIPPET, {}))
         # search: verdicts
         seen = {}
         # (a) sweeps: second call after removal / re-save
@@ -550,7 +568,10 @@ def run(ctx):
                     n_eval += 1
                     ref2 = None
                     if r['out'][0] == 'ok' and r['ref'][0] == 'exc':
-                        ref2 = worker.ask(mod, ad.ref_call(dict(r['op'][1], bd=None)))
+                        c2 = dict(r['op'][1], bd=None)
+                        if mod == 'rbasex' and c2.get('wid'):
+                            c2['wver'] = r['aux']['wver']      # the weights content at the time of the call
+                        ref2 = worker.ask(mod, ad.ref_call(c2))
                     v = H.verdict('C08', r['out'], r['ref'], ref2, r['damage_before'])
                     if v is None:
                         continue
@@ -599,8 +620,9 @@ def run(ctx):
         ad, call, key, good, rows, sh = sweeps[mod]
         samples.append(dict(module=mod, call=repr(call), file=ad.fname(key), file_bytes=len(good),
                             outcomes_first_second=[(kind, k, c1, c2) for kind, k, d, c1, rs, c2 in rows][:8]))
-    ctx.cov.update(obligations=len(pr['theorems']) + ctx.cov['correspondence_items'],
-                   discharged=pr['discharged'] + ctx.cov['traces_validated_against_impl'],
+    ctx.cov.update(obligations=len(pr['theorems']), discharged=pr['discharged'],
+                   per_instance_goals_evaluated_in_coq=ctx.cov['correspondence_items'],
+                   per_instance_goals_true=ctx.cov['traces_validated_against_impl'],
                    evaluations=n_eval, distinct_nontrivial=len(dist),
                    rule='codec: numpy.load on every prefix of files saved by numpy.save for a list of shapes + a garbage stream; handlers: '
                         'for each caching method the file its call loads is replaced by every (quick: sampled) prefix, garbage, zip prefix, '
@@ -613,7 +635,8 @@ def run(ctx):
         'and on the garbage stream; load_outcome = observed outcome class of each caching method on each damaged content',
         'numpy.load results on headers outside the grammar numpy.save emits for C-ordered float64 data are not modelled '
         '(PUnsupported; counted in garbage_outside_header_grammar)',
-        'the interleaving theorem assumes at most two write syscalls per save; measured with strace on every run',
+        'the atomic-save theorem assumes that a basis file appears by rename (os.replace) of a temporary file into which all of its '
+        'bytes were written before, and is never written in place; checked with strace on every run for the five save paths',
         'real multi-process races are only smoke-tested (thorough tier)',
         'valid-but-different files (no checksum exists) are outside the fault class, except wrong-shape files which are swept',
     ]
